@@ -1,0 +1,74 @@
+//go:build verif
+
+package isobmff
+
+import (
+	"bufio"
+	"bytes"
+	"sync"
+)
+
+// Verification hooks (build tag "verif" only): registry and residue control for the pooled
+// bufio.Readers, so that bytes an earlier call left in a pooled reader's internal buffer are a
+// deterministic input of a simulated run.
+
+var (
+	verifMu      sync.Mutex
+	verifReaders []*bufio.Reader
+	verifPattern []byte
+)
+
+func verifApply(r *bufio.Reader, pattern []byte) {
+	if pattern == nil {
+		return
+	}
+	// leaves the pattern in the internal buffer without unsafe: fill it, then detach
+	r.Reset(bytes.NewReader(pattern))
+	_, _ = r.Peek(r.Size())
+	r.Reset(nil)
+}
+
+func init() {
+	newFn := readerPool.New
+	readerPool.New = func() interface{} {
+		r := newFn().(*bufio.Reader)
+		verifMu.Lock()
+		verifReaders = append(verifReaders, r)
+		verifApply(r, verifPattern)
+		verifMu.Unlock()
+		return r
+	}
+}
+
+// VerifSetResidue leaves pattern (repeated to the buffer size by the caller) in the internal
+// buffer of every pooled reader created so far and of every one created from now on.
+func VerifSetResidue(pattern []byte) {
+	verifMu.Lock()
+	defer verifMu.Unlock()
+	verifPattern = pattern
+	for _, r := range verifReaders {
+		verifApply(r, pattern)
+	}
+}
+
+// VerifPristine zeroes the internal buffers (process-start state).
+func VerifPristine() {
+	VerifSetResidue(make([]byte, 64*1024))
+	verifMu.Lock()
+	verifPattern = nil
+	verifMu.Unlock()
+}
+
+// VerifForget drops the registry (call after the pools were emptied by GC).
+func VerifForget() {
+	verifMu.Lock()
+	verifReaders = nil
+	verifMu.Unlock()
+}
+
+// VerifPoolObjects returns how many readers the pool has created.
+func VerifPoolObjects() int {
+	verifMu.Lock()
+	defer verifMu.Unlock()
+	return len(verifReaders)
+}
